@@ -1,6 +1,7 @@
 package props
 
 import (
+	"encoding/binary"
 	"fmt"
 	"math"
 	"os"
@@ -129,6 +130,110 @@ func runC06(c C06Case, ev *Evid) (fs []Finding) {
 			return
 		}
 		path = filepath.Join(dir, "dest", "f.wsp")
+	case "whispertool-huge":
+		// a layout whose file ends near (or beyond) 4 GiB, where 32-bit offset arithmetic wraps. Whether such a
+		// list is accepted is C07's subject; IF Create accepts it, the file must be the classic format: exact
+		// length and every written slot at archive offset + 12 x ((interval - base)/step mod points), with all
+		// offsets taken in exact (64-bit) arithmetic by the harness
+		db, err := createWT(path, c.H.L)
+		if err != nil {
+			ev.Count(HashJSON(c), false, "writer=whispertool-huge", "huge-list-refused")
+			return nil
+		}
+		type wr struct {
+			a    int
+			t    int64
+			v    float64
+			slot int64
+		}
+		var wrs []wr
+		for a, ar := range c.H.L.Archives {
+			// the first write fixes the archive's base interval; then the slot farthest from it, then one in between
+			for k, age := range []int64{0, ar.Ret() - ar.Step, ar.Ret() / 2} {
+				tt := now - age
+				v := float64(1000*(a+1) + k)
+				if err, pm := updateWT(db, a, tt, v, now); err != nil || pm != "" {
+					db.Close()
+					add("huge-update", "update of archive %d at now-%d on a created %d-byte file (%s): %v %s", a, age, c.H.L.FileSize(), c.H.L, err, pm)
+					return
+				}
+				wrs = append(wrs, wr{a: a, t: tt, v: v})
+			}
+		}
+		serr := db.Sync()
+		db.Close()
+		if serr != nil {
+			add("huge-sync", "Sync on a created %d-byte file (%s): %v", c.H.L.FileSize(), c.H.L, serr)
+			return
+		}
+		st, e := os.Stat(path)
+		if e != nil || st.Size() != c.H.L.FileSize() {
+			add("file-length", "created file (%s) has %d bytes, header + 12 x points = %d", c.H.L, st.Size(), c.H.L.FileSize())
+			return
+		}
+		f, e := os.Open(path)
+		if e != nil {
+			panic(e)
+		}
+		defer f.Close()
+		archOff := int64(16 + 12*len(c.H.L.Archives))
+		offs := make([]int64, len(c.H.L.Archives))
+		for a, ar := range c.H.L.Archives {
+			offs[a] = archOff
+			archOff += 12 * ar.Points
+		}
+		slotAt := func(off int64) (uint32, float64) {
+			var b [12]byte
+			if _, e := f.ReadAt(b[:], off); e != nil {
+				return 0, 0
+			}
+			return binary.BigEndian.Uint32(b[:4]), math.Float64frombits(binary.BigEndian.Uint64(b[4:]))
+		}
+		for _, w := range wrs {
+			ar := c.H.L.Archives[w.a]
+			base, _ := slotAt(offs[w.a])
+			iv := alignDown(w.t, ar.Step)
+			idx := emod((iv-int64(base))/ar.Step, ar.Points)
+			gi, gv := slotAt(offs[w.a] + 12*idx)
+			// (only the highest archive's slots are final: writes to finer archives propagate upward and may overwrite)
+			if w.a == len(c.H.L.Archives)-1 && (int64(gi) != iv || gv != w.v) {
+				add("slot-placement", "%s (%d bytes): archive %d point (t=%d, v=%v) is not at byte offset %d (slot %d relative to base %d): found interval %d value %v", c.H.L, c.H.L.FileSize(), w.a, w.t, w.v, offs[w.a]+12*idx, idx, base, gi, gv)
+				return
+			}
+			if w.a < len(c.H.L.Archives)-1 && int64(gi) != iv {
+				add("slot-placement", "%s (%d bytes): archive %d interval %d is not at byte offset %d: found interval %d", c.H.L, c.H.L.FileSize(), w.a, iv, offs[w.a]+12*idx, gi)
+				return
+			}
+		}
+		// reopen and read the same slots back through the library
+		db2, e := openWT(path, wt.WithoutFlock())
+		if e != nil {
+			add("whispertool-open", "whispertool cannot reopen the %d-byte file it created (%s): %v", st.Size(), c.H.L, e)
+			return
+		}
+		defer db2.Close()
+		la := len(c.H.L.Archives) - 1
+		for _, w := range wrs {
+			if w.a != la {
+				continue
+			}
+			ar := c.H.L.Archives[w.a]
+			iv := alignDown(w.t, ar.Step)
+			r := fetchWT(db2, w.a, iv-ar.Step, iv, now) // the window whose first slot is iv (C04)
+			if r.Err != nil || r.Nil || r.Panic != "" || len(r.S.Values) < 1 || r.S.From != iv || r.S.Values[0] != w.v {
+				add("fetch-value-mismatch", "%s (%d bytes): archive %d value written at t=%d reads back as err=%v nil=%v panic=%s values=%v, want %v", c.H.L, c.H.L.FileSize(), w.a, w.t, r.Err, r.Nil, r.Panic, r.S.Values, w.v)
+				return
+			}
+		}
+		cls := []string{"writer=whispertool-huge", "huge-created+verified"}
+		if c.H.L.FileSize() > 1<<32-4096 {
+			cls = append(cls, "file-within-one-page-of-4GiB")
+		}
+		ev.Count(HashJSON(c), true, cls...)
+		if ev.WantSample() {
+			ev.Sample(c)
+		}
+		return nil
 	case "go-whisper-sparse":
 		// a layout whose file is between 2 GiB and 4 GiB, created sparse by the reference implementation
 		saved := gw.Now
@@ -209,6 +314,23 @@ func runC06(c C06Case, ev *Evid) (fs []Finding) {
 	if perr != nil {
 		add("format", "%s-written file is not classic Whisper: %v", c.Writer, perr)
 		return
+	}
+	if c.Writer == "go-whisper" {
+		// the reference WRITER has quirks of its own (a batch spanning more consecutive intervals than an archive
+		// has slots - points of age == retention, future points - is written past the archive's end into the next
+		// archive): a reference-written file that is not a classic file is outside the property's domain
+		for a, ar := range c.H.L.Archives {
+			base := int64(f.Slots[a][0].Interval)
+			for j, s := range f.Slots[a] {
+				if s.Interval == 0 {
+					continue
+				}
+				if int64(s.Interval)%ar.Step != 0 || emod(floorDiv(int64(s.Interval)-base, ar.Step), ar.Points) != int64(j) {
+					ev.Discard("reference-writer-produced-a-non-classic-file")
+					return nil
+				}
+			}
+		}
 	}
 	if c.Writer == "whispertool" || c.Writer == "cli-copy" {
 		want := EncodeLayoutHeader(c.H.L)
@@ -374,6 +496,9 @@ func TestC06(t *testing.T) {
 		Gen: func(t *rapid.T) C06Case {
 			o := defaultLayoutOpts()
 			l := genLayout(t, o)
+			if rapid.IntRange(0, 39).Draw(t, "huge") == 0 {
+				return genHugeC06(t)
+			}
 			c := C06Case{Writer: rapid.SampledFrom([]string{"whispertool", "whispertool", "whispertool", "go-whisper", "go-whisper", "cli-copy"}).Draw(t, "writer")}
 			start := genNowRealistic(t, l)
 			if c.Writer != "go-whisper" && rapid.IntRange(0, 9).Draw(t, "epochHigh") == 0 {
@@ -394,7 +519,53 @@ func TestC06(t *testing.T) {
 		Run: runC06,
 		Fixed: func() []C06Case {
 			y := int64(365 * 86400)
-			return []C06Case{{Writer: "go-whisper-sparse", H: HistCase{L: Layout{Archives: []Arch{{Step: 1, Points: 6 * y}}, Method: 2, XFF: 0.5}, Now: 1600000000}}}
+			maxP := (int64(1)<<32 - 1 - 28) / 12 // the last single-archive size whose end fits 32 bits
+			huge := func(as ...Arch) C06Case {
+				return C06Case{Writer: "whispertool-huge", H: HistCase{L: Layout{Archives: as, Method: 2, XFF: 0.5}, Now: 1600000000}}
+			}
+			return []C06Case{
+				huge(Arch{Step: 1, Points: maxP}), huge(Arch{Step: 1, Points: maxP + 1}), huge(Arch{Step: 1, Points: 400000000}),
+				huge(Arch{Step: 1, Points: 300000000}, Arch{Step: 2, Points: 400000000}),
+				huge(Arch{Step: 1, Points: 100000000}, Arch{Step: 4, Points: 250000000}),
+				{Writer: "go-whisper-sparse", H: HistCase{L: Layout{Archives: []Arch{{Step: 1, Points: 6 * y}}, Method: 2, XFF: 0.5}, Now: 1600000000}}}
 		},
 	})
+}
+
+// genHugeC06 draws a 1-3 archive layout whose file ends between 3.9 and 4.6 GiB (or anywhere up to 12 GiB).
+func genHugeC06(t *rapid.T) C06Case {
+	n := rapid.IntRange(1, 3).Draw(t, "hugeArchives")
+	var total int64
+	switch rapid.IntRange(0, 2).Draw(t, "hugeSizeKind") {
+	case 0: // within a few slots of 2^32 bytes
+		total = (int64(1)<<32-16-int64(12*n))/12 + rapid.Int64Range(-3, 3).Draw(t, "hugeDelta")
+	case 1:
+		total = rapid.Int64Range(325000000, 385000000).Draw(t, "hugePoints")
+	default:
+		total = rapid.Int64Range(300000000, 1000000000).Draw(t, "hugePoints")
+	}
+	// split the points over n archives with steps 1, r1, r1*r2 so that retentions strictly increase
+	as := make([]Arch, n)
+	step := int64(1)
+	left := total
+	for i := 0; i < n; i++ {
+		as[i].Step = step
+		if i == n-1 {
+			as[i].Points = left
+		} else {
+			as[i].Points = left / int64(2*(n-i)) // the later archives get more points: retention grows
+			left -= as[i].Points
+			step *= int64(rapid.SampledFrom([]int{2, 3, 5}).Draw(t, "hugeRatio"))
+		}
+	}
+	l := Layout{Archives: as, Method: rapid.IntRange(1, 6).Draw(t, "m"), XFF: 0.5}
+	now := int64(1<<31) - 1000000 + rapid.Int64Range(0, 999).Draw(t, "hugeNow")
+	if l.MaxRet() > math.MaxInt32 {
+		// not a storable retention: C07 territory, and the checks above would be vacuous
+		as[n-1].Points = math.MaxInt32 / as[n-1].Step
+	}
+	if now < l.MaxRet()+2*as[n-1].Step {
+		now = l.MaxRet() + 2*as[n-1].Step + 7
+	}
+	return C06Case{Writer: "whispertool-huge", H: HistCase{L: l, Now: now}}
 }
